@@ -34,6 +34,11 @@ def main():
     except ImportError:
         pass
     try:
+        import p_fault
+        runners.update(p_fault.RUNNERS)
+    except ImportError:
+        pass
+    try:
         import p_net
         runners.update(p_net.RUNNERS)
     except ImportError:
